@@ -24,7 +24,8 @@ PROPERTY = "C33"
 TECHNIQUE = "runtime monitoring; algebraic oracle (products of returned factors) over the exhaustive set of unit triples per category"
 RULE = ("every ordered triple (a,b,c) of units of one category (real space 6, reciprocal space 6, angular 3 units, taken from "
         "abtem.core.units._unit_categories at run time) is a fixed case with deterministic sampling/offset; random cases draw a "
-        "triple plus sampling (log-uniform 1e-6..1e6, either sign), offset (0, +-log-uniform) and an axis class "
+        "triple plus sampling (log-uniform 1e-6..1e6, either sign, 0, whole numbers), offset (0, -0.0, +-log-uniform), field types "
+        "float/int/np.float32/np.float64/np.int64 and an axis class "
         "(LinearAxis/RealSpaceAxis/ScanAxis/ReciprocalSpaceAxis); non-trivial = a != b; distinct = distinct case signature")
 CLAUSES = ["defined", "identity", "inverse", "compose", "axis-inverse", "axis-compose", "axis-factor"]
 QUICK = dict(n=1500, time=40)
@@ -34,6 +35,20 @@ ASSUMPTIONS = ["the unit categories are read from abtem.core.units._unit_categor
                "eV and keV is defined or promised); physical correctness of the individual factors is not part of the property"]
 
 RTOL = 1e-12
+RTOL32 = 16 * float(np.finfo(np.float32).eps)      # a float32 field keeps numpy in float32 (NEP 50): <= 2 roundings per conversion
+SCALAR_TYPES = ["float", "float", "float", "float", "int", "np.float32", "np.float64", "np.int64"]
+
+
+def _scalar(v, t):
+    if t == "int":
+        return int(round(v)) if v == round(v) and abs(v) < 2 ** 53 else float(v)
+    if t == "np.int64":
+        return np.int64(round(v)) if v == round(v) and abs(v) < 2 ** 53 else float(v)
+    if t == "np.float32":
+        return np.float32(v)
+    if t == "np.float64":
+        return np.float64(v)
+    return float(v)
 CATS = ("real_space", "reciprocal_space", "angular")
 AXES = {"real_space": ("LinearAxis", "RealSpaceAxis", "ScanAxis"),
         "reciprocal_space": ("LinearAxis", "ReciprocalSpaceAxis"),
@@ -54,6 +69,13 @@ def fixed_cases(tier):
             k += 1
             out.append({"cat": cat, "a": a, "b": b, "c": c, "sampling": [0.05, 1.0, 0.37, 12.5][k % 4],
                         "offset": [0.0, -3.25, 7.0][k % 3], "axis": AXES[cat][k % len(AXES[cat])]})
+    # hostile field values on alias / non-base units
+    for cat, (a, b, c) in (("real_space", ("nm", "Angstrom", "um")), ("reciprocal_space", ("1/Angstrom", "1/nm", "1/Å")),
+                           ("angular", ("deg", "rad", "mrad"))):
+        for s, o, ts, to in ((0.0, 0.0, "float", "float"), (2.0, -0.0, "int", "float"), (0.25, 3.0, "np.float32", "int"),
+                             (1.0, 0.5, "np.float64", "np.float32"), (3.0, 7.0, "np.int64", "np.int64")):
+            out.append({"cat": cat, "a": a, "b": b, "c": c, "sampling": s, "offset": o, "axis": AXES[cat][-1],
+                        "sampling_as": ts, "offset_as": to})
     return out
 
 
@@ -64,7 +86,16 @@ def gen(rng, tier):
     s = float(10 ** rng.uniform(-6, 6)) * (1 if rng.random() < 0.85 else -1)
     r = rng.random()
     o = 0.0 if r < 0.25 else float(10 ** rng.uniform(-6, 6)) * (1 if rng.random() < 0.5 else -1)
-    return {"cat": cat, "a": a, "b": b, "c": c, "sampling": s, "offset": o, "axis": str(rng.choice(AXES[cat]))}
+    # hostile values: zero sampling, negative zero / integer offsets, numpy scalar and python int fields
+    r = rng.random()
+    if r < 0.05:
+        s = 0.0
+    elif r < 0.12:
+        s = float(int(rng.integers(1, 50)))
+    if rng.random() < 0.05:
+        o = -0.0
+    return {"cat": cat, "a": a, "b": b, "c": c, "sampling": s, "offset": o, "axis": str(rng.choice(AXES[cat])),
+            "sampling_as": str(rng.choice(SCALAR_TYPES)), "offset_as": str(rng.choice(SCALAR_TYPES))}
 
 
 def _factor(ctx, new, old):
@@ -102,6 +133,13 @@ def check(ctx, case):
     for u in {a, b, c}:
         if f[u, u] is not None:
             ctx.close(f[u, u], 1.0, "identity", rtol=RTOL, unit=u)
+    # no target units (None) means "leave as is": the factor is 1 whatever the source units are
+    from abtem.core.units import get_conversion_factor
+    try:
+        f_none = get_conversion_factor(None, a)
+    except Exception as e:
+        f_none = repr(e)
+    ctx.expect(isinstance(f_none, (int, float)) and f_none == 1.0, "identity", what="units=None", old=a, got=f_none)
     if f[a, b] is not None and f[b, a] is not None:
         ctx.close(f[a, b] * f[b, a], 1.0, "inverse", rtol=RTOL, a=a, b=b, f_ab=f[a, b], f_ba=f[b, a])
     if None not in (f[a, b], f[b, c], f[a, c]):
@@ -110,24 +148,28 @@ def check(ctx, case):
 
     # the same laws through the axis method
     s, o = case["sampling"], case["offset"]
-    ax = getattr(A, case["axis"])(label="q", sampling=s, offset=o, units=a)
+    s_obj, o_obj = _scalar(s, case.get("sampling_as", "float")), _scalar(o, case.get("offset_as", "float"))
+    s, o = float(s_obj), float(o_obj)
+    ax = getattr(A, case["axis"])(label="q", sampling=s_obj, offset=o_obj, units=a)
+    rt_s = RTOL32 if isinstance(s_obj, np.float32) else RTOL
+    rt_o = RTOL32 if isinstance(o_obj, np.float32) else RTOL
     ab = _convert(ctx, ax, b)
     ac = _convert(ctx, ax, c)
     if ab is not None:
         ctx.expect(type(ab) is type(ax) and ab.units == b and ab.label == "q", "axis-factor", what="type/units/label",
                    got_units=ab.units, want_units=b, got_type=type(ab).__name__)
         if f[a, b] is not None:
-            ctx.close(ab.sampling, s * f[a, b], "axis-factor", rtol=RTOL, a=a, b=b, field="sampling", sampling=s)
-            ctx.close(ab.offset, o * f[a, b], "axis-factor", rtol=RTOL, a=a, b=b, field="offset", offset=o)
+            ctx.close(ab.sampling, s * f[a, b], "axis-factor", rtol=rt_s, a=a, b=b, field="sampling", sampling=s)
+            ctx.close(ab.offset, o * f[a, b], "axis-factor", rtol=rt_o, a=a, b=b, field="offset", offset=o)
         aba = _convert(ctx, ab, a)
         if aba is not None:
-            ctx.close(aba.sampling, s, "axis-inverse", rtol=RTOL, a=a, b=b, field="sampling")
-            ctx.close(aba.offset, o, "axis-inverse", rtol=RTOL, a=a, b=b, field="offset")
+            ctx.close(aba.sampling, s, "axis-inverse", rtol=rt_s, a=a, b=b, field="sampling")
+            ctx.close(aba.offset, o, "axis-inverse", rtol=rt_o, a=a, b=b, field="offset")
             ctx.expect(aba.units == a, "axis-inverse", what="units", got=aba.units, want=a)
         abc = _convert(ctx, ab, c)
         if abc is not None and ac is not None:
-            ctx.close(abc.sampling, ac.sampling, "axis-compose", rtol=RTOL, a=a, b=b, c=c, field="sampling")
-            ctx.close(abc.offset, ac.offset, "axis-compose", rtol=RTOL, a=a, b=b, c=c, field="offset")
+            ctx.close(abc.sampling, ac.sampling, "axis-compose", rtol=rt_s, a=a, b=b, c=c, field="sampling")
+            ctx.close(abc.offset, ac.offset, "axis-compose", rtol=rt_o, a=a, b=b, c=c, field="offset")
             ctx.expect(abc.units == ac.units == c, "axis-compose", what="units", got=abc.units, want=c)
             n = 5
-            ctx.close(abc.coordinates(n), ac.coordinates(n), "axis-compose", rtol=1e-11, what="coordinates")
+            ctx.close(abc.coordinates(n), ac.coordinates(n), "axis-compose", rtol=max(rt_s, rt_o) * 10, what="coordinates")
